@@ -388,9 +388,9 @@ func treeDoc(c *dev, n int) (Doc, string) {
 	var between []int
 	for i := 0; i < n; i++ {
 		l := entryLabels[i]
-		ps = append(ps, Pick{Source: c.ask(len(altSource), l["source"]), Version: c.ask(nVersion, l["version"]), Dists: c.ask(len(altDists), l["dists"]),
-			Opts: c.ask(len(altOpts), l["options"]), OptSep: c.ask(len(altOptSep), l["option-separator"]), Body: c.ask(len(altBody), l["body"]), Before: c.ask(2, l["blank-before-body"]),
-			After: c.ask(2, l["blank-after-body"]), Maint: c.ask(len(altMaint), l["maintainer"]), Date: c.ask(len(altDate), l["date"])})
+		ps = append(ps, Pick{Source: c.ask(base.source, l["source"]), Version: c.ask(nVersion, l["version"]), Dists: c.ask(base.dists, l["dists"]),
+			Opts: c.ask(base.opts, l["options"]), OptSep: c.ask(len(altOptSep), l["option-separator"]), Body: c.ask(base.body, l["body"]), Before: c.ask(2, l["blank-before-body"]),
+			After: c.ask(2, l["blank-after-body"]), Maint: c.ask(base.maint, l["maintainer"]), Date: c.ask(base.date, l["date"])})
 		if i < n-1 {
 			between = append(between, 1+c.ask(3, "blank-lines-between"))
 		}
@@ -415,7 +415,11 @@ func Run(r *mc.Run) {
 		"a ParseOne loop ends at io.EOF (as Parse does); an entry returned together with io.EOF is counted",
 		"blank lines are empty lines; whitespace-only lines, CR LF and bytes outside the model's alphabets are not explored",
 	}
+	applyAudit() // alphabet audit: extends the alternative tables for this run; nothing on the unchanged tree
 	selfCheck(r)
+	if len(auditNote) > 0 {
+		r.Extra["alphabet_audit_c17"] = auditNote
+	}
 	k := r.Pick(3, 4)
 
 	// (a) choice tree
@@ -440,7 +444,7 @@ func Run(r *mc.Run) {
 		}
 	}
 	r.Scenario("model-tree", map[string]interface{}{"entries": "1..3", "deviation_bound_k": fmt.Sprintf("%d with whole delivery, %d with onebyte / smallbuf delivery", k, k-1),
-		"per_entry_points": fmt.Sprintf("source(%d) version(%d) distributions(%d) options(%d) option-separator(%d) body(%d) blank-before(2) blank-after(2) maintainer(%d) date(%d)", len(altSource), nVersion, len(altDists), len(altOpts), len(altOptSep), len(altBody), len(altMaint), len(altDate)),
+		"per_entry_points": fmt.Sprintf("source(%d) version(%d) distributions(%d) options(%d) option-separator(%d) body(%d) blank-before(2) blank-after(2) maintainer(%d) date(%d)", base.source, nVersion, base.dists, base.opts, len(altOptSep), base.body, base.maint, base.date),
 		"global_points":    "leading blank lines(0..2) blank lines between entries(1..3) trailing blank lines(0..2) final newline(present/absent)",
 		"apis":             apis, "delivery": "whole, onebyte, smallbuf(ParseOne only)",
 		"sharding": "executions partitioned by entry count, API, delivery and their first non-default answer"}, len(shards),
@@ -533,7 +537,47 @@ func Run(r *mc.Run) {
 		full(len(altBody), 2, 2, 1, 1, len(altDists), 1, 1, 1, 1), true)
 	if !r.Quick() {
 		product("one-entry-full-product", "every attribute",
-			full(len(altBody), 2, 2, len(altSource), nVersion, len(altDists), len(altOpts), len(altOptSep), len(altMaint), len(altDate)), false)
+			full(base.body, 2, 2, base.source, nVersion, base.dists, base.opts, len(altOptSep), base.maint, base.date), false)
+	}
+
+	// alphabet audit: whole changelogs with entry counts around a new integer constant, and every audited attribute
+	// alternative at every position of a three-entry changelog; all APIs and deliveries, final newline present/absent.
+	if len(auditNote) > 0 {
+		docs := append([]Doc(nil), auditDocs...)
+		type slot struct {
+			name string
+			from int
+			to   int
+			set  func(p *Pick, v int)
+		}
+		for _, sl := range []slot{
+			{"source", base.source, len(altSource), func(p *Pick, v int) { p.Source = v }},
+			{"dists", base.dists, len(altDists), func(p *Pick, v int) { p.Dists = v }},
+			{"opts", base.opts, len(altOpts), func(p *Pick, v int) { p.Opts = v }},
+			{"body", base.body, len(altBody), func(p *Pick, v int) { p.Body = v }},
+			{"maint", base.maint, len(altMaint), func(p *Pick, v int) { p.Maint = v }},
+			{"date", base.date, len(altDate), func(p *Pick, v int) { p.Date = v }},
+		} {
+			for v := sl.from; v < sl.to; v++ {
+				for pos := 0; pos < 3; pos++ {
+					ps := []Pick{{Body: 1}, {Body: 4, Date: 1}, {Body: 5, Date: 3, Maint: 2}}
+					sl.set(&ps[pos], v)
+					docs = append(docs, mkDoc(ps, 0, []int{1, 2}, 0))
+				}
+			}
+		}
+		r.Scenario("audit-changelogs", map[string]interface{}{"changelogs": len(docs), "what": auditNote["added"]}, len(docs),
+			func(i int, st *mc.Stats) bool {
+				for _, a := range apis {
+					for _, del := range deliveries(a) {
+						for _, dmg := range []string{"", "no-final-newline"} {
+							st.Nontrivial++
+							record(st, "audit-changelogs", In{Doc: docs[i], API: a, Delivery: del, Damage: dmg}, i == len(docs)/2 && a == "Parse" && del == "whole" && dmg == "")
+						}
+					}
+				}
+				return true
+			})
 	}
 
 	// (c) damage of fixed documents
